@@ -63,7 +63,7 @@ class ConCtx(CtxBase):
     def stream(self, items, pos=0, merge_reads=False):
         s = io.BytesIO(bytes(items))
         s.seek(pos)
-        return s
+        return self.track(s)
 
     def mkbytes(self, items): return bytes(items)
     def concretize(self, x): return x
